@@ -141,7 +141,9 @@ def theorem_names(prop_id: str):
 
 # the source tie: which SrcTie modules concern which property, and the translated functions each one needs
 SRC_TIE = {
-    'C03': {'Block': ['Block1014.write', 'Block1014.finalise']},
+    'C03': {'Block': ['Block1014.write', 'Block1014.finalise'], 'Reader': ['VbsReader.__next__']},
+    'C09': {'Reader': ['VbsReader.__next__']},
+    'C10': {'Reader': ['VbsReader.__next__']},
     'C04': {'Block': ['Block1014.write', 'Block1014.finalise']},
     'C05': {'Unblock': ['Unblock1014.read', 'Block1014.write', 'Block1014.finalise']},
     'C07': {'Pds': ['_pds_to_dict', '_icc_to_dict', '_pds_to_de']},
